@@ -139,6 +139,13 @@ theorem rerefFeatures_length (refs : List Nat) (fs : List Feature) :
 @[simp] theorem rerefRec_seq (r : Rec) : (rerefRec r).seq = r.seq := rfl
 @[simp] theorem rerefRec_rid (r : Rec) : (rerefRec r).rid = r.rid := rfl
 
+theorem match_ok_of_target {c : ClassSpec} {r t : Rec} (h : c.target r = .ok t) :
+    ∃ m, c.matchSeq r.seq = .ok m := by
+  unfold ClassSpec.target at h
+  cases hm : c.matchSeq r.seq with
+  | error e => rw [hm] at h; cases h
+  | ok m => exact ⟨m, rfl⟩
+
 /-- the fragment of the supplied module with object id `oid` -/
 def fragOfOid (ents : List Ent) (oid : Nat) : Word :=
   match ents.find? (fun e => e.oid = oid) with
@@ -148,7 +155,8 @@ def fragOfOid (ents : List Ent) (oid : Nat) : Word :=
 theorem extractChain_seq {ents : List Ent} {gs : List (GMod Word)} {acc r : Rec}
     (h : extractChain ents gs acc = .ok r) :
     r.seq = acc.seq ++ (gs.map (fun g => fragOfOid ents g.oid)).flatten ∧
-    ∀ g ∈ gs, ∃ e, ents.find? (fun e => e.oid = g.oid) = some e ∧ e.faulty = false := by
+    ∀ g ∈ gs, ∃ e t, ents.find? (fun e => e.oid = g.oid) = some e ∧ e.faulty = false ∧
+      e.spec.target e.rcd = .ok t := by
   induction gs generalizing acc with
   | nil => simp only [extractChain, Except.ok.injEq] at h; subst h; simp
   | cons g gs ih =>
@@ -172,7 +180,7 @@ theorem extractChain_seq {ents : List Ent} {gs : List (GMod Word)} {acc r : Rec}
             unfold fragOfOid; rw [hf]; exact target_seq ht
           · intro g' hg'
             rcases List.mem_cons.mp hg' with rfl | hg'
-            · exact ⟨e, hf, by simpa using hfa⟩
+            · exact ⟨e, t, hf, by simpa using hfa, ht⟩
             · exact h2 g' hg'
 
 /-- the dereferenced copies of the entities: same identity, class, flag and sequence -/
@@ -220,6 +228,16 @@ theorem find_deref {mods dms : List Ent} (h : List.Forall₂ DerefOf mods dms) (
       exact ⟨e, rfl, hde⟩
     · simp only [ho, decide_false] at hd ⊢
       exact ih hd
+
+theorem derefOf_isSome {mods dms : List Ent} (h : List.Forall₂ DerefOf mods dms) :
+    ∀ e ∈ mods, (derefRec e.rcd).isSome := by
+  induction h with
+  | nil => intro e he; simp at he
+  | @cons e0 d0 es ds hde _ ih =>
+    intro e he
+    rcases List.mem_cons.mp he with rfl | he
+    · rw [hde.2.2.2]; rfl
+    · exact ih e he
 
 theorem restore_derefEnts {mods dms : List Ent} (h : List.Forall₂ DerefOf mods dms) :
     ((dms.map (·.rcd)).zip ((mods.map (·.rcd)).map snapshot)).map (fun p => restore p.2 p.1) = mods.map (·.rcd) := by
@@ -293,7 +311,9 @@ theorem assemble_ok {v : Ent} {mods : List Ent} {pid pname : Nat} {p : Product} 
       p.rcd.seq = (chain.map (fun g => fragOfOid mods g.oid)).flatten ++ v.fragment ∧
       p.unused = rest.map (·.oid) ∧ p.pid = pid ∧ p.pname = pname ∧ p.rcd.rid = pid ∧
       p.commentVector = v.rcd.rid ∧ p.commentModules = mods.map (·.rcd.rid) ∧
-      (∀ g ∈ chain, ∃ e, mods.find? (fun e => e.oid = g.oid) = some e ∧ e.faulty = false) ∧ v.faulty = false := by
+      (∀ g ∈ chain, ∃ e m, mods.find? (fun e => e.oid = g.oid) = some e ∧ e.faulty = false ∧
+        e.spec.matchSeq e.rcd.seq = .ok m) ∧ v.faulty = false ∧
+      (∀ e ∈ mods, (derefRec e.rcd).isSome) ∧ (derefRec v.rcd).isSome := by
   unfold assemble at h
   simp only [] at h
   split at h
@@ -342,7 +362,7 @@ theorem assemble_ok {v : Ent} {mods : List Ent} {pid pname : Nat} {p : Product} 
                         have hgs : evalPrefix mods = ((evalPrefix mods).1, none) := by
                           rw [← herr]
                         refine ⟨gv, (evalPrefix mods).1, map, chain, rest, hgv, hne, hgs, hb, by simpa using hrc,
-                          hw, ?_, rfl, rfl, rfl, rfl, rfl, rfl, ?_, by simpa using hvf⟩
+                          hw, ?_, rfl, rfl, rfl, rfl, rfl, rfl, ?_, by simpa using hvf, derefOf_isSome hms, rfl⟩
                         · simp only [rerefRec_seq, Rec.append_seq, hs, List.nil_append]
                           congr 1
                           · congr 1
@@ -353,9 +373,90 @@ theorem assemble_ok {v : Ent} {mods : List Ent} {pid pname : Nat} {p : Product} 
                             unfold Ent.fragment
                             simp [(derefRec_fields hr).1]
                         · intro g hg
-                          obtain ⟨d, hd, hfd⟩ := hall g hg
+                          obtain ⟨d, t, hd, hfd, htd⟩ := hall g hg
                           obtain ⟨e, he, hde⟩ := find_deref hms g.oid hd
-                          exact ⟨e, he, by rw [← hde.2.2.1]; exact hfd⟩
+                          obtain ⟨m, hm⟩ := match_ok_of_target htd
+                          refine ⟨e, m, he, by rw [← hde.2.2.1]; exact hfd, ?_⟩
+                          rw [← hde.2.1, ← (derefRec_fields hde.2.2.2).1]; exact hm
             · cases h
+
+end Moclo
+
+namespace Moclo
+
+theorem find_deref' {mods dms : List Ent} (h : List.Forall₂ DerefOf mods dms) (oid : Nat) {e : Ent}
+    (he : mods.find? (fun e => e.oid = oid) = some e) :
+    ∃ d, dms.find? (fun e => e.oid = oid) = some d ∧ DerefOf e d := by
+  induction h with
+  | nil => simp at he
+  | @cons e0 d0 es ds hde _ ih =>
+    simp only [List.find?_cons] at he ⊢
+    rw [hde.1]
+    by_cases ho : e0.oid = oid
+    · simp only [ho, decide_true] at he ⊢
+      simp only [Option.some.injEq] at he; subst he
+      exact ⟨d0, rfl, hde⟩
+    · simp only [ho, decide_false] at he ⊢
+      exact ih he
+
+theorem target_ok_of_match {c : ClassSpec} {r : Rec} {m : Match} (h : c.matchSeq r.seq = .ok m) :
+    c.target r = .ok (c.targetOf r m) := by
+  unfold ClassSpec.target; rw [h]; rfl
+
+theorem extractChain_ok {ents : List Ent} {gs : List (GMod Word)}
+    (h : ∀ g ∈ gs, ∃ e m, ents.find? (fun e => e.oid = g.oid) = some e ∧ e.faulty = false ∧
+      e.spec.matchSeq e.rcd.seq = .ok m) (acc : Rec) :
+    ∃ r, extractChain ents gs acc = .ok r := by
+  induction gs generalizing acc with
+  | nil => exact ⟨acc, rfl⟩
+  | cons g gs ih =>
+    obtain ⟨e, m, hf, hfa, hm⟩ := h g (by simp)
+    simp only [extractChain, hf, hfa, target_ok_of_match hm]
+    exact ih (fun g' hg' => h g' (List.mem_cons_of_mem _ hg')) _
+
+theorem derefEnts_some {mods : List Ent} (h : ∀ e ∈ mods, (derefRec e.rcd).isSome) :
+    ∃ dms, mods.mapM (fun e => (derefRec e.rcd).map (fun r => { e with rcd := r })) = some dms := by
+  induction mods with
+  | nil => exact ⟨[], rfl⟩
+  | cons e es ih =>
+    obtain ⟨r, hr⟩ := Option.isSome_iff_exists.mp (h e (by simp))
+    obtain ⟨ds, hds⟩ := ih (fun x hx => h x (List.mem_cons_of_mem _ hx))
+    exact ⟨{ e with rcd := r } :: ds, by simp [List.mapM_cons, hr, hds]⟩
+
+/-- the converse of `assemble_ok`: when the graph conditions hold, the citations are well formed and no
+extraction is faulty, a product is returned -/
+theorem assemble_succeeds {v : Ent} {mods : List Ent} (pid pname : Nat)
+    {gv : GMod Word} {gs map chain rest : List (GMod Word)}
+    (h1 : v.gmod = .ok gv) (h2 : gv.start ≠ gv.stop) (h3 : evalPrefix mods = (gs, none))
+    (h4 : gBuild gs [] = .ok map) (h5 : gRcClash rc map = false)
+    (h6 : gWalk gv.start (map.length + 1) gv.stop map = (chain, rest, none))
+    (hd : ∀ e ∈ mods, (derefRec e.rcd).isSome) (hdv : (derefRec v.rcd).isSome)
+    (hch : ∀ g ∈ chain, ∃ e m, mods.find? (fun e => e.oid = g.oid) = some e ∧ e.faulty = false ∧
+      e.spec.matchSeq e.rcd.seq = .ok m)
+    (hvf : v.faulty = false) :
+    ∃ p, (assemble v mods pid pname).1 = .ok p := by
+  obtain ⟨dms, hdms⟩ := derefEnts_some hd
+  obtain ⟨r, hr⟩ := Option.isSome_iff_exists.mp hdv
+  have hms := derefEnts_spec hdms
+  obtain ⟨mv, hmv⟩ : ∃ m, v.spec.matchSeq v.rcd.seq = .ok m := by
+    unfold Ent.gmod at h1
+    cases hm : v.spec.matchSeq v.rcd.seq with
+    | error e => rw [hm] at h1; simp [bind, Except.bind] at h1
+    | ok m => exact ⟨m, rfl⟩
+  have hseq := (derefRec_fields hr).1
+  obtain ⟨acc, hacc⟩ := extractChain_ok (ents := dms) (gs := chain) (by
+    intro g hg
+    obtain ⟨e, m, hf, hfa, hm⟩ := hch g hg
+    obtain ⟨d, hd', hde⟩ := find_deref' hms g.oid hf
+    refine ⟨d, m, hd', by rw [hde.2.2.1]; exact hfa, ?_⟩
+    rw [hde.2.1, (derefRec_fields hde.2.2.2).1]; exact hm) ⟨0, [], [], []⟩
+  unfold assemble
+  simp only [h1, h2, if_false, h3, h4, h5, Bool.false_eq_true, hdms, hr, Option.map_some]
+  unfold assembleCore
+  simp only [h6, hacc, hvf, Bool.false_eq_true, if_false]
+  have : v.spec.target r = .ok (v.spec.targetOf r mv) := by
+    apply target_ok_of_match; rw [hseq]; exact hmv
+  rw [this]
+  exact ⟨_, rfl⟩
 
 end Moclo
